@@ -7570,6 +7570,87 @@ func verificationHasNoCaller(c *Ctx) {
 	if n == 0 {
 		c.Lost("verification-has-no-caller.site", "no LoadNEFMethod call with a `caller` parameter in InitVerificationContext")
 	}
+	// The same for every other context the function loads (the verification script itself, the invocation script):
+	// a VM loader without an explicit caller takes the script on top of the invocation stack for the caller, so
+	// whatever is loaded second is "called by" what was loaded first. The invocation script is loaded on top of
+	// the verification script (finding 97): CheckWitness(account) inside it held through the calling-hash shortcut
+	// for any scope. A loader with an implicit caller is allowed for the first context only (the stack is empty).
+	type load struct {
+		call     *ast.CallExpr
+		name     string
+		implicit bool
+		zero     bool
+	}
+	var loads []load
+	inspectNoLit(fd.Decl.Body, func(x ast.Node) bool {
+		call, ok := x.(*ast.CallExpr)
+		if !ok {
+			return true
+		}
+		cf := calleeFunc(f.Info, call)
+		if cf == nil || cf.Pkg() == nil || pkgRel(cf.Pkg()) != "pkg/vm" || !strings.HasPrefix(cf.Name(), "Load") {
+			return true
+		}
+		sig := cf.Type().(*types.Signature)
+		l := load{call: call, name: cf.Name(), implicit: true}
+		for i := 0; i < sig.Params().Len() && i < len(call.Args); i++ {
+			if sig.Params().At(i).Name() == "caller" {
+				l.implicit = false
+				if cl, ok := ast.Unparen(call.Args[i]).(*ast.CompositeLit); ok && len(cl.Elts) == 0 {
+					l.zero = true
+				}
+			}
+		}
+		loads = append(loads, l)
+		return true
+	})
+	c.Floor("contexts loaded by InitVerificationContext", len(loads), 3)
+	// which loads can come second: a load is "first" if no other load call precedes it on any path - approximated by
+	// source order inside the same branch arm: a load in the else/then arm of the verification-script test is first,
+	// anything after that if statement is not
+	var firstIf *ast.IfStmt
+	for _, st := range fd.Decl.Body.List {
+		if is, ok := st.(*ast.IfStmt); ok && firstIf == nil {
+			has := false
+			ast.Inspect(is, func(y ast.Node) bool {
+				for _, l := range loads {
+					if y == ast.Node(l.call) {
+						has = true
+					}
+				}
+				return true
+			})
+			if has {
+				firstIf = is
+			}
+		}
+	}
+	k := 0
+	for _, l := range loads {
+		if !l.implicit {
+			continue // explicit callers are judged above (LoadNEFMethod) or here
+		}
+		k++
+		key := fmt.Sprintf("verification-has-no-caller.implicit#%d", k)
+		inFirst := firstIf != nil && l.call.Pos() >= firstIf.Pos() && l.call.End() <= firstIf.End()
+		if inFirst {
+			c.OK(key, c.P.Pos(l.call.Pos()), l.name+" loads the first context: the invocation stack is empty, the implicit caller is the zero hash")
+		} else {
+			c.Fail(key, c.P.Pos(l.call.Pos()), fmt.Sprintf("InitVerificationContext loads a context with VM.%s on top of the one loaded before it: the loader takes the script on top of the invocation stack - the verification script, i.e. the signer's account - for the calling script hash, although that script calls nothing. System.Runtime.CheckWitness(account) in the invocation script then holds through the calling-hash shortcut for any scope of the signer (None included), and CalledByContract(account) rules match", l.name))
+		}
+	}
+	for _, l := range loads {
+		if l.implicit || l.name == "LoadNEFMethod" {
+			continue
+		}
+		k++
+		key := fmt.Sprintf("verification-has-no-caller.explicit#%d", k)
+		if l.zero {
+			c.OK(key, c.P.Pos(l.call.Pos()), l.name+" is given the zero hash as the caller")
+		} else {
+			c.Fail(key, c.P.Pos(l.call.Pos()), "InitVerificationContext loads a context with a calling script hash that is not the zero value: nothing calls the scripts of a witness")
+		}
+	}
 }
 
 // overrideOutlivesCallout (cond-context, C15): Oracle.finish runs the callback with the signers of the *request*
